@@ -46,6 +46,7 @@ POOL = [
     " ", "\x00", "<p>\x00x", "</p>", "</br>", "<br/>", "<image>", "<isindex>", "<nobr><nobr>x", "<h1><h2>x",
     "<table>\x00x", "<svg><![CDATA[x]]>", "<math><annotation-xml encoding=text/html><p>x", "<p><svg><title><p>x",
 ]
+POOL += ["<svg>\x00y", "<math><mi>a</mi>\x00", "<svg><g>x\x00</g>z", "<select>\x00x", "<svg><desc>\x00", "<p>a\x00b<svg>\x00"]
 POOL += ["<u%d>x</u%d>" % (i, i) for i in range(0, 300, 7)]
 BYTES_POOL = [b"<meta charset=koi8-r>\xc1\xc2", b"<p>\xe9", b"\xef\xbb\xbf<p>x", b"<title>x</title><meta charset=shift_jis>\x82\xa0",
               b"<meta http-equiv=content-type content='text/html; charset=iso-8859-2'>\xb1", b"<!--" + b"x" * 1100 + b"--><meta charset=utf-8>\xc3\xa9"]
@@ -96,6 +97,23 @@ def do_call(parser, op, kind):
         return ("exc", type(e).__name__, str(e)[:300])
     flat = h5.canon_of(tree, kind)
     return ("ok", flat, h5.errors_of(parser), parser.documentEncoding if isinstance(data, bytes) else None)
+
+
+class ModuleDoor(object):
+    """html5lib.parse / html5lib.parseFragment (builder by name) behind the parser-object interface do_call expects."""
+    errors = ()
+    documentEncoding = None
+
+    def __init__(self, kind):
+        self.name = "dom" if kind == "dom" else "etree"
+
+    def parse(self, src, scripting=False):
+        import html5lib
+        return html5lib.parse(src, treebuilder=self.name, scripting=scripting)
+
+    def parseFragment(self, src, container="div", scripting=False):
+        import html5lib
+        return html5lib.parseFragment(src, container=container, treebuilder=self.name, scripting=scripting)
 
 
 def new_parser(kind, strict):
@@ -338,7 +356,11 @@ def thread_phase(ctx, nthreads=8, per_thread=12):
                          "scripting": False, "container": "div", "fault": None})
         plans.append((kind, hist))
     # expected results sequentially, on fresh objects, before any thread runs
-    expected = [[do_call(new_parser(kind, False), op, kind) for op in hist] for kind, hist in plans]
+    # odd-numbered threads go through the module-level functions (no parser object of their own), builder "etree"/"dom"
+    def mk(t, kind):
+        return ModuleDoor(kind) if t % 4 in (2, 3) else new_parser(kind, False)
+    plans = [(("etree" if (t % 4 in (2, 3) and kind != "dom") else kind), hist) for t, (kind, hist) in enumerate(plans)]
+    expected = [[do_call(mk(t, kind), op, kind) for op in hist] for t, (kind, hist) in enumerate(plans)]
     results = [None] * nthreads
     inj = YieldInjector("%d/%d" % (ctx.seed, ctx.i))
     old = sys.getswitchinterval()
@@ -347,7 +369,7 @@ def thread_phase(ctx, nthreads=8, per_thread=12):
     try:
         def worker(t):
             kind, hist = plans[t]
-            shared = new_parser(kind, False)
+            shared = mk(t, kind)
             results[t] = [do_call(shared, op, kind) for op in hist]
         ths = [threading.Thread(target=worker, args=(t,)) for t in range(nthreads)]
         for th in ths:
@@ -426,12 +448,21 @@ def shard(ctx):
     # 4b. process-wide factory caches
     for j in range(1 if ctx.tier == "quick" else 5):
         judge_factories(ctx, ctx.rng("factories", ctx.i * 100 + j))
+    # 4c. process-wide state: directed (earlier call, later call) pairs against a fresh interpreter
+    mine = [pr for k2, pr in enumerate(PROCESS_PAIRS) if (k2 % ctx.n) == ctx.i % max(1, min(ctx.n, len(PROCESS_PAIRS)))]
+    if ctx.n > len(PROCESS_PAIRS):
+        mine = [PROCESS_PAIRS[ctx.i]] if ctx.i < len(PROCESS_PAIRS) else []
+    judge_process_state(ctx, mine)
     # 5. threads
     for rep in range(1 if ctx.tier == "quick" else 10):
         thread_phase(ctx)
 
 
 def replay(ctx, case):
+    if "process_pair" in case:
+        w, a, b = case["process_pair"]
+        judge_process_state(ctx, [(w, common.unjson(a) if isinstance(a, dict) else a, common.unjson(b) if isinstance(b, dict) else b)])
+        return
     if "factory_order" in case:
         import random
         judge_factories(ctx, random.Random(0))
@@ -507,9 +538,64 @@ def judge_factories(ctx, rng):
 
 _FACTORY_EXPECTED = {}
 
+# ------------------------------------------------------------------ process-wide state poisoned by an EARLIER, unrelated call
+PROCESS_PAIRS = [
+    ("parse", "<svg>\x00y", "<p>a\x00b"), ("parse", "<math><mi>x</mi>\x00", "<table>\x00x"), ("parse", "<svg><![CDATA[\x00]]>", "<select><option>o\x00p"),
+    ("parse", "<svg><g>\x00\x00", "\x00"), ("parse", "<table>foo&bar;<svg>\x00", "<pre>\n\x00x"), ("parse", "<p>&notit;&amp", "<p>&notin;&ampere"),
+    ("ser", ["<a href=/p/q title=a\xa0b>x", {"quote_attr_values": "spec"}], ["<a href=/p/q title=a\xa0b>y", {}]),
+    ("ser", ["<a href=/r/s class=c\u3000d>x", {}], ["<a href=/r/s class=c\u3000d>y", {"quote_attr_values": "spec"}]),
+    ("ser", ["<p title='a b'>x", {"quote_char": "'"}], ["<p title='a b'>y", {}]),
+    ("ser", ["<input disabled=disabled>", {"minimize_boolean_attributes": False}], ["<input disabled=disabled>", {}]),
+    ("ser", ["<p>caf\xe9 &lt;", {"encoding": "ascii"}], ["<p>caf\xe9 &lt;", {"encoding": "koi8-r"}]),
+    ("ser", ["<pre> a  b </pre> c  d", {"strip_whitespace": True}], ["<pre> a  b </pre> c  d", {}]),
+]
+PROCESS_SNIPPET = r"""
+import sys, json
+sys.path.insert(0, %(verif)r)
+from vf import common
+common.import_repo()
+from vf.props import c12
+print(json.dumps(common.jsonable(c12.process_call(json.loads(sys.stdin.read())))))
+"""
+
+
+def process_call(spec):
+    from .. import h5
+    from html5lib import serializer
+    what, arg = spec
+    if what == "parse":
+        return do_call(new_parser("etree-full", False), {"op": "parse", "doc": arg, "scripting": False, "container": "div", "fault": None}, "etree-full")
+    doc, opts = arg
+    opts = dict(opts)
+    enc = opts.pop("encoding", None)
+    tree = h5.parse_doc(doc)[2]
+    s = serializer.HTMLSerializer(**opts)
+    out = s.render(h5.walker("etree")(tree), enc) if enc else s.render(h5.walker("etree")(tree))
+    return ["ok", out.decode("latin-1") if isinstance(out, bytes) else out, list(s.errors)]
+
+
+def judge_process_state(ctx, pairs):
+    """B after A (fresh objects each, same process) must equal B as the only call of a fresh interpreter."""
+    env = dict(os.environ, PYTHONHASHSEED="1", PYTHONDONTWRITEBYTECODE="1")
+    for what, a, b in pairs:
+        process_call([what, a])
+        got = json.loads(json.dumps(common.jsonable(process_call([what, b]))))
+        p = subprocess.run([sys.executable, "-c", PROCESS_SNIPPET % {"verif": common.VERIF_DIR}], input=json.dumps([what, b]),
+                           capture_output=True, text=True, timeout=120, env=env)
+        if p.returncode != 0:
+            raise common.Inconclusive("fresh interpreter failed: " + p.stderr[-300:])
+        exp = json.loads(p.stdout)
+        ctx.count("process_state_pairs_compared")
+        if got != exp:
+            ctx.violation("result-depends-on-an-earlier-unrelated-call", {"process_pair": [what, common.jsonable(a), common.jsonable(b)]},
+                          "%s of %r after %r: %s; alone in a fresh interpreter: %s" % (what, b, a, short(repr(got), 200), short(repr(exp), 200)))
+            return
+
 
 def finalize(m, v):
     c = m["counters"]
+    if c.get("process_state_pairs_compared", 0) < min(12, len(PROCESS_PAIRS)):
+        m["inconclusive"].append("process-state clause compared fewer pairs than listed (%d)" % c.get("process_state_pairs_compared", 0))
     if c.get("factory_calls_compared", 0) < 12:
         m["inconclusive"].append("module factory clause compared fewer than 12 calls")
     if c.get("read_faults_injected", 0) < 500:
